@@ -235,6 +235,10 @@ pub fn run(repo: &str, unit_path: &str, canary: bool) -> std::result::Result<Run
                 }
                 i += 1;
             }
+            "litstrings" => {
+                maps.litstrings = true;
+                i += 1;
+            }
             "struct" | "enum" => {
                 let file = words.get(1).ok_or("struct: file?")?.to_string();
                 let name = words.get(2).ok_or("struct: name?")?.to_string();
